@@ -42,5 +42,46 @@ func init() {
 		fmt.Fprintf(&e.b, "Definition metrics_initial_len : Z := %d.\n", len(cl.Elts))
 		fmt.Fprintf(&e.b, "Definition metrics_initial_types : list string := [%s].\n", names)
 		intLitsInFunc(repo, e, "metrics", "zeroMetric.metricID", "zero_metric_id_literals")
+
+		// Does (*worker).Run reset the worker-side task scope before running the
+		// task?  (A statement `task.Scope.Reset(nil)` directly in the function
+		// body, i.e. on every path, not inside a branch or a deferred func.)
+		// The model's bigmachine flow takes this as its switch.
+		px, err := loadPkg(repo, "exec")
+		if err != nil {
+			e.fail("%v", err)
+			return
+		}
+		fd := px.findFunc("worker.Run")
+		if fd == nil || fd.Body == nil {
+			e.fail("exec.(*worker).Run not found")
+			return
+		}
+		resets := false
+		for _, st := range fd.Body.List {
+			es, ok := st.(*ast.ExprStmt)
+			if !ok {
+				continue
+			}
+			call, ok := es.X.(*ast.CallExpr)
+			if !ok || len(call.Args) != 1 {
+				continue
+			}
+			if id, ok := call.Args[0].(*ast.Ident); !ok || id.Name != "nil" {
+				continue
+			}
+			sel, ok := call.Fun.(*ast.SelectorExpr)
+			if !ok || sel.Sel.Name != "Reset" {
+				continue
+			}
+			inner, ok := sel.X.(*ast.SelectorExpr)
+			if !ok || inner.Sel.Name != "Scope" {
+				continue
+			}
+			if id, ok := inner.X.(*ast.Ident); ok && id.Name == "task" {
+				resets = true
+			}
+		}
+		fmt.Fprintf(&e.b, "Definition worker_run_resets_scope : bool := %v.\n", resets)
 	}})
 }
